@@ -21,7 +21,9 @@ SNIPPETS = ["@charset ", "@charset", "url(", "URL(", "u\\rl(", "/*", "*/", "and(
             "\\110000 ", "\\g", "@import", "@IM\\port", "@media", "U+0-7F", "U+2??", "1/2)", "(1/2)", "<!--", "-->",
             "~=", "|=", "^=", "$=", "*=", "1.5em", "+.5%", "-0", "#fff", "!important", "\xef\xbb\xbf", "\xfe\xff",
             "'a\\'b'", '"x', "'y", "\r\n", "url(x)", "url( 'x' )", 'url("x', "url('y", "url(z", "@font-face", "@page",
-            "@namespace", "@variables", "progid:DXImageTransform.Microsoft.x(", "a:b(", "\\", "\\\\", "e3", "1e3"]
+            "@namespace", "@variables", "progid:DXImageTransform.Microsoft.x(", "a:b(", "\\", "\\\\", "e3", "1e3",
+            "@\\6d\nedia", "@\\69\nmport x", "@\\78\ny", "(16\n/\n9)", "16 / 9)", "\\41\n", "\\41\r\n", "a\\\nb", "#\\31\n2",
+            "1\\65\nm", "u\\72\nl(x)", "'\\\n'", "\"a\\\r\nb\""]
 
 COMPLETIONS = ["", "*/", '"', "'", "')", '")', ")"]
 
@@ -147,19 +149,25 @@ def run(ctx):
             d = compare(case, i, m)
             if d:
                 mism.append((case, d))
-            # the model's raw field lets the positions statement be checked with escapes too
-            if m is not None and not d and case[0]:
+            # positions with escapes: the implementation's values have escapes resolved, so the raw width
+            # of each token is taken from the model (the two agree on types and values here) and the
+            # statement "token k starts at advance (1,1) (raw of its predecessors)" is evaluated on the
+            # IMPLEMENTATION's reported positions
+            if (m is not None and case[0] and i and i[0] != "EXC" and len(i) == len(m)
+                    and all(a[0] == b[0] and a[1] == b[1] for a, b in zip(i, m))):
                 line, col = 1, 1
                 completed = "".join(t[2] for t in m) == case[2] + "*/"
-                for k, t in enumerate(m):
-                    if t[0] == "EOF" and completed:
+                for k, (ti, tm) in enumerate(zip(i, m)):
+                    if ti[0] == "EOF" and completed:
                         continue
-                    if (t[3], t[4]) != (line, col):
-                        ctx.violation("token position differs from source position (with escapes)",
-                                      {"dc": case[0], "fullsheet": case[1], "text": case[2], "token": k})
+                    if (ti[2], ti[3]) != (line, col):
+                        ctx.violation("token %d %r reports %d:%d, starts at %d:%d (text with escapes)" % (
+                            k, ti[:2], ti[2], ti[3], line, col),
+                            {"dc": case[0], "fullsheet": case[1], "text": case[2], "token": k, "expect": "positions_raw",
+                             "raws": [t[2] for t in m]}, sig_text=json.dumps(case[2]))
                         break
-                    if not (k == 0 and t[0] == "BOM"):
-                        line, col = pos_after(line, col, t[2])
+                    if not (k == 0 and tm[0] == "BOM"):
+                        line, col = pos_after(line, col, tm[2])
     for case, i in zip(cases, impl):
         if len(i) >= 2 and i[0] != "EXC":
             nontrivial.add(case[2])
@@ -220,6 +228,17 @@ def oracle_ext(w, toks):
         got = [t for t in toks if t[0] != "BOM"]
         if [t[2:] for t in got] != [t[2:] for t in ref] or "".join(t[1] for t in got) != "".join(t[1] for t in ref):
             return "U+FEFF at the start of the text is not treated as a zero-width byte-order mark"
+        return None
+    if w.get("expect") == "positions_raw":
+        line, col = 1, 1
+        raws = w["raws"]
+        if len(raws) != len(toks):
+            return "token count differs from the recorded run"
+        for k, (t, r) in enumerate(zip(toks, raws)):
+            if (t[2], t[3]) != (line, col):
+                return "token %d %r reports %d:%d, starts at %d:%d" % (k, t[:2], t[2], t[3], line, col)
+            if not (k == 0 and t[0] == "BOM"):
+                line, col = pos_after(line, col, r)
         return None
     return oracle(w["dc"], w["fullsheet"], w["text"], toks)
 
